@@ -1,18 +1,25 @@
 // C02 — adaptive load shedder: sheds only when overloaded and over capacity.
 //
 // Three engines in one binary (see NOTES.md):
-//   (A) history engine  (history.go): vlib.PBFS over Allow/Pass/Fail/time-jump histories of the real
-//       shedder on the fake clock, three (window, buckets) configurations + a load.Disable() lane;
+//   (A) history engine  (history.go): explicit-state BFS over Allow/Pass/Fail/time-jump histories
+//       of the real shedder on the fake clock, three (window, buckets) configurations + a
+//       load.Disable() lane. The fake clock, the injected CPU answer and load.Disable() are
+//       process-global, so the search is sharded over worker processes (vlib.RunShards): one
+//       shard = (configuration, first operation), each running vlib.BFS below its prefix;
 //   (B) schedule engine (sched.go):   vx scenarios, 3 threads Allow→Pass|Fail under the controlled
-//       scheduler (SpinLock spins are Yields), conservation + "no shed while the CPU is never over";
+//       scheduler, conservation + "no shed while the CPU is never over";
 //   (C) wrappers        (wrappers.go): rest SheddingHandler and zrpc UnarySheddingInterceptor
 //       enumerated sequentially with a counting fake Shedder/Promise.
 package main
 
 import (
 	"encoding/json"
+	"errors"
 	"fmt"
 	"os"
+	"runtime/debug"
+	"runtime/pprof"
+	"sort"
 	"strconv"
 	"strings"
 	"time"
@@ -24,11 +31,10 @@ import (
 	"github.com/zeromicro/go-zero/verifshim/vx"
 )
 
-// Op is an index into the configuration's operation table (compact frontier / wire format).
+// Op is an index into the configuration's operation table (compact frontier format).
 type Op uint16
 
-// opTable: the full operation table of a configuration, simplest first. Stable for a given
-// configuration, so parent and workers agree on the codes.
+// opTable: the full operation table of a configuration, simplest first.
 func opTable(c histCfg) []OpDef {
 	b := int64(c.interval())
 	w := int64(c.Window)
@@ -86,34 +92,29 @@ func decode(tab []OpDef, path []Op) []OpDef {
 	return out
 }
 
-// HistCase is the replay artefact of the history engine.
-type HistCase struct {
-	Kind     string   `json:"kind"` // "history"
-	Config   string   `json:"config"`
-	Disabled bool     `json:"disabled"`
-	Ops      []OpDef  `json:"ops"`
-	Readable []string `json:"readable"`
+func readable(ops []OpDef) []string {
+	var rd []string
+	for _, o := range ops {
+		rd = append(rd, o.String())
+	}
+	return rd
 }
 
-func histSearch(cfg *vlib.Config, r *vlib.Report, c histCfg, disabled bool, depth int, deadline time.Time) {
-	tab := opTable(c)
-	name := c.Name
-	if disabled {
-		name = "dis:" + c.Name
-	}
-	alphabet := func(d int, path []Op) []Op {
+// alphabetFor returns the operations offered after path (d = len(path)).
+func alphabetFor(c histCfg, tab []OpDef, thorough bool) func(d int, path []Op) []Op {
+	return func(d int, path []Op) []Op {
 		ops := decode(tab, path)
 		ub := outstandingBound(c, ops)
 		lastJump := len(ops) > 0 && ops[len(ops)-1].K == "jump"
 		var out []Op
 		for i, o := range tab {
 			switch {
-			case thoroughOnly(o) && !cfg.Thorough():
+			case thoroughOnly(o) && !thorough:
 				continue
 			case o.K == "macro" && d != 0:
 				continue
-			case o.K == "jump" && lastJump && !cfg.Thorough():
-				continue // quick: gaps are single jumps of the alphabet, sums only in thorough
+			case o.K == "jump" && lastJump && !thorough:
+				continue // quick: gaps are single jumps of the alphabet, sums of jumps only in thorough
 			case (o.K == "pass" || o.K == "fail") && (ub == 0 || (o.New && ub < 2)):
 				continue
 			case (o.K == "passall" || o.K == "failall") && ub == 0:
@@ -123,98 +124,204 @@ func histSearch(cfg *vlib.Config, r *vlib.Report, c histCfg, disabled bool, dept
 		}
 		return out
 	}
-	var nontrivial, withShed, nsample int
-	bfs := &vlib.PBFS[Op]{
-		Name:     name,
-		Cfg:      cfg,
-		MaxDepth: depth,
-		Deadline: deadline,
-		Alphabet: alphabet,
-		Run: func(path []Op) vlib.RunResult {
-			res := runHistory(c, disabled, decode(tab, path), false)
-			return vlib.RunResult{Key: res.key, Err: res.err, Class: res.class, Info: res.short}
-		},
-		OnViolation: func(path []Op, res vlib.RunResult) {
-			ops := decode(tab, path)
-			var rd []string
-			for _, o := range ops {
-				rd = append(rd, o.String())
-			}
-			r.Violation(res.Class, fmt.Sprintf("%s: %s", name, res.Err), HistCase{Kind: "history", Config: c.Name, Disabled: disabled, Ops: ops, Readable: rd})
-		},
-		OnState: func(path []Op, res vlib.RunResult) {
-			// Info = "<decisions with the overload branch active and requests in flight>,<sheds>"
-			f := strings.Split(res.Info, ",")
-			if len(f) == 2 {
-				a, _ := strconv.Atoi(f[0])
-				s, _ := strconv.Atoi(f[1])
-				if a > 0 || (disabled && len(path) > 0) {
-					nontrivial++
-					r.Nontrivial(name + "|" + res.Key)
-				}
-				if s > 0 {
-					withShed++
-				}
-			}
-			if !disabled && r.WantSample() && len(path) >= 4 && len(f) == 2 && f[1] != "0" && nsample < 3 {
-				nsample++
-				ops := decode(tab, path)
-				full := runHistory(c, false, ops, false) // parent process: nothing else touches the fake clock here
-				var rd []string
-				for _, o := range ops {
-					rd = append(rd, o.String())
-				}
-				r.Sample(map[string]any{"engine": "history", "config": c.Name, "history": rd, "state": full.info})
-			}
-		},
-	}
-	out := bfs.Search()
-	if cfg.BFSWorker != "" {
-		return
-	}
-	r.AddStates(out.States)
-	r.AddTransitions(out.Transitions)
-	r.AddTraces(out.Transitions + 1)
-	r.Eval(out.Transitions + 1)
-	r.Scenario("history/"+name, map[string]any{"states": out.States, "transitions": out.Transitions, "depth_bound": depth, "max_depth": out.MaxDepth,
-		"closed": out.Closed, "exhaustive_to_depth": out.Exhaustive, "failures": out.Failures, "cap": out.Cap,
-		"states_where_overload_branch_decided_with_requests_in_flight": nontrivial, "states_with_a_shed_in_history": withShed})
-	if !out.Exhaustive {
-		r.NotExhaustive("history/" + name + ": " + out.Cap)
-	}
+}
+
+// HistCase is the replay artefact of the history engine.
+type HistCase struct {
+	Kind     string   `json:"kind"` // "history"
+	Config   string   `json:"config"`
+	Disabled bool     `json:"disabled"`
+	Ops      []OpDef  `json:"ops"`
+	Readable []string `json:"readable"`
 }
 
 type histPlan struct {
 	c        histCfg
 	disabled bool
 	depth    int
-	share    float64 // share of the time box (thorough)
+}
+
+func (p histPlan) lane() string {
+	if p.disabled {
+		return "dis:" + p.c.Name
+	}
+	return p.c.Name
 }
 
 func plans(cfg *vlib.Config) []histPlan {
+	depths := []int{6, 6, 6, 4, 4, 4}
+	if cfg.Thorough() {
+		depths = []int{8, 8, 8, 5, 5, 5}
+	}
 	if v := os.Getenv("VERIF_C02_DEPTHS"); v != "" { // experiments only: "6,5,5,4,3,3"
-		var out []histPlan
 		for i, f := range strings.Split(v, ",") {
-			d, _ := strconv.Atoi(f)
-			if d > 0 {
-				out = append(out, histPlan{histCfgs[i%3], i >= 3, d, 0.15})
+			if i < len(depths) {
+				depths[i], _ = strconv.Atoi(f)
 			}
 		}
-		return out
 	}
-	if cfg.Thorough() {
-		return []histPlan{
-			{histCfgs[0], false, 8, 0.30}, {histCfgs[1], false, 8, 0.25}, {histCfgs[2], false, 8, 0.25},
-			{histCfgs[0], true, 5, 0.03}, {histCfgs[1], true, 5, 0.03}, {histCfgs[2], true, 5, 0.03},
+	var out []histPlan
+	for i, d := range depths {
+		if d > 0 {
+			out = append(out, histPlan{histCfgs[i%3], i >= 3, d})
 		}
 	}
-	return []histPlan{
-		{histCfgs[0], false, 6, 0}, {histCfgs[1], false, 5, 0}, {histCfgs[2], false, 5, 0},
-		{histCfgs[0], true, 4, 0}, {histCfgs[1], true, 3, 0}, {histCfgs[2], true, 3, 0},
+	return out
+}
+
+// shard name: hist|<lane>|<depth>|<first op code>. Quick tier: histories that start with a
+// warm-up macro (the states in which shedding is possible) are searched one level deeper than
+// those that start from the empty shedder.
+func histShards(cfg *vlib.Config) []string {
+	var names []string
+	for _, p := range plans(cfg) {
+		tab := opTable(p.c)
+		for _, op := range alphabetFor(p.c, tab, cfg.Thorough())(0, nil) {
+			d := p.depth
+			if !cfg.Thorough() && !p.disabled && tab[op].K != "macro" {
+				d--
+			}
+			names = append(names, fmt.Sprintf("hist|%s|%d|%d", p.lane(), d, op))
+		}
+	}
+	// heaviest shards (deepest) first: better packing on the worker pool
+	sort.SliceStable(names, func(i, j int) bool { return strings.Split(names[i], "|")[2] > strings.Split(names[j], "|")[2] })
+	return names
+}
+
+type classErr struct{ class, msg string }
+
+func (e *classErr) Error() string { return e.msg }
+
+// histShard runs the BFS below one first operation (worker process).
+func histShard(nShards int) func(name string, r *vlib.Report) {
+	return func(name string, r *vlib.Report) {
+		cfg := r.Cfg()
+		f := strings.Split(name, "|")
+		if len(f) != 4 {
+			vlib.Fatal("bad history shard %q", name)
+		}
+		lane := f[1]
+		depth, _ := strconv.Atoi(f[2])
+		first, _ := strconv.Atoi(f[3])
+		disabled := strings.HasPrefix(lane, "dis:")
+		c, ok := cfgByName(strings.TrimPrefix(lane, "dis:"))
+		if !ok {
+			vlib.Fatal("bad history shard %q", name)
+		}
+		if disabled {
+			load.Disable() // process-global: this worker only ever builds disabled shedders
+		}
+		debug.SetGCPercent(1000)
+		tab := opTable(c)
+		alpha := alphabetFor(c, tab, cfg.Thorough())
+		deadline := cfg.Deadline()
+		if cfg.Thorough() { // time box per shard: the history engine's share of the budget, 16 shards at a time
+			per := 12 * time.Minute * 16 / time.Duration(nShards)
+			if per < 20*time.Second {
+				per = 20 * time.Second
+			}
+			if d := time.Now().Add(per); d.Before(deadline) {
+				deadline = d
+			}
+		}
+		var last histResult
+		var nontrivial, withShed, nsample int
+		pre := "hist/" + lane + "/"
+		bfs := &vlib.BFS[Op]{
+			Name:     name,
+			MaxDepth: depth,
+			MaxNodes: 4000000,
+			Deadline: deadline,
+			Alphabet: func(d int, path []Op) []Op {
+				if d == 0 {
+					return []Op{Op(first)}
+				}
+				return alpha(d, path)
+			},
+			Run: func(path []Op) (string, error, bool) {
+				last = runHistory(c, disabled, decode(tab, path), false)
+				if last.err != "" {
+					return last.key, &classErr{last.class, last.err}, false
+				}
+				return last.key, nil, false
+			},
+			OnViolation: func(path []Op, err error) {
+				var ce *classErr
+				errors.As(err, &ce)
+				ops := decode(tab, path)
+				r.Violation(ce.class, fmt.Sprintf("%s: %s", lane, ce.msg), HistCase{Kind: "history", Config: c.Name, Disabled: disabled, Ops: ops, Readable: readable(ops)})
+			},
+			OnState: func(path []Op, key string) {
+				if len(path) == 0 {
+					return // the empty history is every shard's root; counted once per lane by the parent
+				}
+				if last.active > 0 || disabled {
+					nontrivial++
+					r.Nontrivial(name + "|" + key)
+				}
+				if last.sheds > 0 {
+					withShed++
+					if !disabled && nsample < 1 && len(path) >= 3 && first >= 2 && r.WantSample() {
+						nsample++
+						r.Sample(map[string]any{"engine": "history", "config": c.Name, "history": readable(decode(tab, path)), "state": last.info})
+					}
+				}
+			},
+		}
+		out := bfs.Search()
+		r.Count(pre+"states", out.States-1)
+		r.Count(pre+"transitions", out.Transitions)
+		r.Count(pre+"failures", out.Failures)
+		r.Count(pre+"states_where_overload_branch_decided_with_requests_in_flight", nontrivial)
+		r.Count(pre+"states_with_a_shed_in_history", withShed)
+		r.Count(pre+"shards", 1)
+		r.AddStates(out.States - 1)
+		r.AddTransitions(out.Transitions)
+		r.AddTraces(out.Transitions)
+		r.Eval(out.Transitions)
+		if !out.Exhaustive {
+			r.Count(pre+"shards_cut", 1)
+			r.NotExhaustive(fmt.Sprintf("history %s first-op %v: %s", lane, tab[first], out.Cap))
+		}
 	}
 }
 
-const rule = "(A) explicit-state BFS per (window,buckets) configuration over histories of Allow(cpu over|under) / Pass|Fail(oldest|newest) / Allow×k / PassAll / time jumps on the real adaptive shedder (fresh shedder + replay per transition; a state is distinct by white-box dump ⊕ reference state, counted non-trivial when some Allow in its history was decided with the overload branch active (cpu over or cool-off) and requests in flight; in the load.Disable() lane every state); " +
+// histPrepass: a sequential depth-3 BFS per enabled lane in the parent process, before the
+// shards. It only serves to make the reported counterexample of a shallow violation the
+// smallest one, deterministically (shards finish in any order and vlib keeps the first
+// violation of a class); its transitions are repeated by the shards and not counted.
+func histPrepass(cfg *vlib.Config, r *vlib.Report) {
+	for _, p := range plans(cfg) {
+		if p.disabled {
+			continue // load.Disable() is process-global: disabled lanes only run in workers
+		}
+		c := p.c
+		tab := opTable(c)
+		bfs := &vlib.BFS[Op]{
+			Name:     "prepass|" + p.lane(),
+			MaxDepth: 3,
+			Deadline: cfg.Deadline(),
+			Alphabet: alphabetFor(c, tab, cfg.Thorough()),
+			Run: func(path []Op) (string, error, bool) {
+				res := runHistory(c, false, decode(tab, path), false)
+				if res.err != "" {
+					return res.key, &classErr{res.class, res.err}, false
+				}
+				return res.key, nil, false
+			},
+			OnViolation: func(path []Op, err error) {
+				var ce *classErr
+				errors.As(err, &ce)
+				ops := decode(tab, path)
+				r.Violation(ce.class, fmt.Sprintf("%s: %s", p.lane(), ce.msg), HistCase{Kind: "history", Config: c.Name, Ops: ops, Readable: readable(ops)})
+			},
+		}
+		bfs.Search()
+	}
+}
+
+const rule = "(A) explicit-state BFS per (window,buckets) configuration over histories of Allow(cpu over|under) / Pass|Fail(oldest|newest) / Allow×k / PassAll / time jumps on the real adaptive shedder (fresh shedder + replay per transition; sharded by first operation; a state is distinct by white-box dump ⊕ reference state, counted non-trivial when some Allow in its history was decided with the overload branch active (cpu over or cool-off) and requests in flight; in the load.Disable() lane every state); " +
 	"(B) every interleaving up to the preemption bound of 3 threads Allow→Pass|Fail on a pre-loaded shedder (distinct by scenario + observed admit/shed shape); " +
 	"(C) every handler outcome of SheddingHandler (status 100..599, no write, panics) and UnarySheddingInterceptor (nil, errors, every gRPC code, panic) against a counting fake Shedder/Promise (distinct by wrapper + outcome)"
 
@@ -234,17 +341,6 @@ func main() {
 	}
 	r := vlib.NewReport(cfg)
 	silence()
-
-	// PBFS worker process: serve the one search this worker belongs to.
-	if cfg.BFSWorker != "" {
-		if strings.HasPrefix(cfg.BFSWorker, "dis:") {
-			load.Disable() // process-global: this worker only ever builds disabled shedders
-		}
-		for _, p := range plans(cfg) {
-			histSearch(cfg, r, p.c, p.disabled, p.depth, time.Time{})
-		}
-		vlib.Fatal("bfs worker %q matches no search", cfg.BFSWorker)
-	}
 
 	if cfg.Replay != "" {
 		var peek struct {
@@ -270,17 +366,47 @@ func main() {
 		return
 	}
 
+	if pfn := os.Getenv("VERIF_C02_BENCH"); pfn != "" { // experiments only: profile typical histories
+		c := histCfgs[0]
+		paths := [][]OpDef{
+			{{K: "allow"}, {K: "jump", D: 1}, {K: "pass"}, {K: "burst", N: 3}, {K: "jump", D: int64(c.interval())}, {K: "allow", Over: true}},
+			{{K: "burst", N: 20}, {K: "fail"}, {K: "fail"}, {K: "jump", D: 1}, {K: "passall"}, {K: "allow", Over: true}},
+			{{K: "macro", M: "warm-fast"}, {K: "allow", Over: true}, {K: "jump", D: 1}, {K: "pass"}, {K: "allow"}, {K: "allow", Over: true}},
+		}
+		pf, _ := os.Create(pfn)
+		pprof.StartCPUProfile(pf)
+		t0 := time.Now()
+		for i := 0; i < 60000; i++ {
+			runHistory(c, false, paths[i%3], false)
+		}
+		fmt.Println("per run:", time.Since(t0)/60000)
+		pprof.StopCPUProfile()
+		os.Exit(0)
+	}
+	hs := histShards(cfg)
+	if strings.HasPrefix(cfg.Shard, "hist|") {
+		vlib.RunShards(r, nil, histShard(len(hs))) // worker mode: runs the shard and exits
+	}
 	if cfg.Shard == "" { // parent process: history engine and wrappers first, then the schedule shards
 		r.Assume("the CPU answer is injected per Allow through load.systemOverloadChecker; stat.CpuUsage() (overload factor) is real and bracketed in [0.1,1]; shedders are built WithCpuThreshold(999) so that the factor is 1 for every usage value core/stat can report")
 		r.Assume("capacity estimate with no pass in the window: 1 pass/bucket × 1000 ms (the package's documented default); violations that depend on it carry the class suffix :empty-window")
+		r.Assume("core/syncx/spinlock.go is replaced (overlay only) by a blocking-lock model of the same API: spin-waiting is stutter-equivalent to blocking; with the mechanically rewritten spin loop the bounded schedule search does not terminate (free Yield alternatives)")
 		start := time.Now()
-		total := time.Until(cfg.Deadline()) - 5*time.Minute // leave room for the schedule engine (thorough)
+		histPrepass(cfg, r)
+		vlib.RunShards(r, hs, histShard(len(hs)))
 		for _, p := range plans(cfg) {
-			dl := cfg.Deadline()
-			if cfg.Thorough() {
-				dl = time.Now().Add(time.Duration(float64(total) * p.share))
+			r.AddStates(1) // the empty history: one root state per lane
+			pre := "hist/" + p.lane() + "/"
+			sum := map[string]any{"depth_bound": p.depth}
+			if !cfg.Thorough() && !p.disabled {
+				sum["depth_bound"] = fmt.Sprintf("%d after a warm-up macro, %d from the empty shedder", p.depth, p.depth-1)
 			}
-			histSearch(cfg, r, p.c, p.disabled, p.depth, dl)
+			for _, k := range []string{"states", "transitions", "failures", "shards", "shards_cut", "states_where_overload_branch_decided_with_requests_in_flight", "states_with_a_shed_in_history"} {
+				sum[k] = r.Counters[pre+k]
+				delete(r.Counters, pre+k)
+			}
+			sum["exhaustive_to_depth"] = sum["shards_cut"] == int64(0)
+			r.Scenario("history/"+p.lane(), sum)
 		}
 		r.SetExtra("history_wall_s", time.Since(start).Seconds())
 		t1 := time.Now()
